@@ -1002,8 +1002,8 @@ func (p *Parser) parseTernary(conditionNode ast.Node) ast.Node {
 	defer func() { p.tern = false }()
 
 	firstToken := p.curToken // the "?"
-	p.nextToken()            // move past the '?'
 	precedence := p.currentPrecedence()
+	p.nextToken() // move past the '?'
 	ifTrue := p.parseExpression(precedence)
 	if ifTrue == nil {
 		p.setTokenError(p.curToken, "invalid syntax in ternary if true expression")
